@@ -58,6 +58,21 @@ Fixpoint dbfly (n : nat) (v : gvec) : gvec :=
            vadd u0 u1 ++ vsub u0 u1
   end.
 Definition decompose_diag (n : nat) (d : list bool -> gi) : gvec := dbfly n (dvec n d).
+(* the source's iterative loop of the diagonal variant: for h = 1, 2, 4, ...: every block of 2h entries -> (x+y, x-y) *)
+Fixpoint dpass (fuel h : nat) (b : gvec) : gvec :=
+  match fuel with
+  | O => b
+  | S f =>
+    match b with
+    | [] => []
+    | _ => let x := firstn h b in let y := firstn h (skipn h b) in
+           vadd x y ++ vsub x y ++ dpass f h (skipn (2 * h) b)
+    end
+  end.
+Fixpoint dpasses (levels h : nat) (b : gvec) : gvec :=
+  match levels with O => b | S l => dpasses l (2 * h) (dpass (length b) h b) end.
+Definition dbfly_iter (n : nat) (v : gvec) : gvec := dpasses n 1 v.
+Definition decompose_diag_iter (n : nat) (d : list bool -> gi) : gvec := dbfly_iter n (dvec n d).
 
 (* index conventions of PauliString: get_index = ba2int(bits); get_diagonal_index = ba2int(z-bits) if no x-bit else -1 *)
 Definition digit (a : pl) : nat := match a with PI => 0 | PZ => 1 | PX => 2 | PY => 3 end.
